@@ -522,6 +522,7 @@ package argmapper
 //@   ensures  [executed-once-with-all-arguments] imp(!old(cachedOnce(f)) && forall(j, int, imp(0 <= j && j < len(f.input.values), has(argMap, vhash(f.input.values[j])))), nexec == old(nexec) + 1 && f.execs == old(f.execs) + 1 && result.buildErr == nil)
 //@   ensures  [raw-outputs] imp(!old(cachedOnce(f)) && result.buildErr == nil, len(result.out) == numOut(rtypeof(f.fn)) && forall(i, int, imp(0 <= i && i < len(result.out), valid(result.out[i]) && rtypeof(result.out[i]) == outType(rtypeof(f.fn), i))))
 //@   ensures  [failure-recorded] imp(!old(cachedOnce(f)) && result.buildErr == nil, failed == ite(len(result.out) > 0, errOf(result.out[len(result.out)-1]), nil))
+//@   ensures  [a-failure-is-visible-in-the-result] imp(failed != nil, result.buildErr == nil && len(result.out) > 0 && failed == errOf(result.out[len(result.out)-1]))
 //@   ensures  [once-memoises-every-first-result] imp(f.once && !old(cachedOnce(f)) && result.buildErr == nil, f.onceResult != nil && fresh(f.onceResult) && f.onceResult.out == result.out && f.onceResult.buildErr == nil)
 //@   ensures  [not-once-no-cache] imp(!f.once, f.onceResult == old(f.onceResult))
 //@   ensures  f.once == old(f.once) && f.fn == old(f.fn) && f.input == old(f.input) && f.output == old(f.output)
